@@ -952,8 +952,9 @@ func (w *world) compare(st vlib.State, ev map[string]any, o *obs, traces []strin
 	op := vlib.Str(ev, "op")
 	// parts
 	type pinfo struct {
-		frags []frag
-		mem   bool
+		frags  []frag
+		mem    bool
+		lo, hi int
 	}
 	spec := map[string]pinfo{}
 	wantSpans := map[string][]string{}
@@ -961,7 +962,7 @@ func (w *world) compare(st vlib.State, ev map[string]any, o *obs, traces []strin
 	for _, pv := range vlib.List(st, "parts") {
 		p := vlib.Rec(pv)
 		fl := frags(vlib.List(p, "frags"))
-		spec[fmt.Sprintf("%s/%d", vlib.Str(p, "tbl"), vlib.Int(p, "id"))] = pinfo{frags: fl, mem: vlib.Bool(p, "mem")}
+		spec[fmt.Sprintf("%s/%d", vlib.Str(p, "tbl"), vlib.Int(p, "id"))] = pinfo{frags: fl, mem: vlib.Bool(p, "mem"), lo: vlib.Int(p, "lo"), hi: vlib.Int(p, "hi")}
 		for _, f := range fl {
 			wantSpans[f.t] = append(wantSpans[f.t], spanID(f.t, f.k))
 		}
@@ -998,7 +999,7 @@ func (w *world) compare(st vlib.State, ev map[string]any, o *obs, traces []strin
 				continue
 			}
 			mapped[rid] = true
-			w.checkPart(vt, key, sp.frags, sp.mem, byID, rid, op, traces)
+			w.checkPart(vt, key, sp.frags, sp.mem, sp.lo, sp.hi, byID, rid, op, traces)
 		}
 		var fresh []uint64
 		for _, p := range real {
@@ -1009,7 +1010,7 @@ func (w *world) compare(st vlib.State, ev map[string]any, o *obs, traces []strin
 		if len(unmapped) == 1 && len(fresh) == 1 && op == "write" {
 			w.realID[unmapped[0]] = fresh[0]
 			sp := spec[unmapped[0]]
-			w.checkPart(vt, unmapped[0], sp.frags, sp.mem, byID, fresh[0], op, traces)
+			w.checkPart(vt, unmapped[0], sp.frags, sp.mem, sp.lo, sp.hi, byID, fresh[0], op, traces)
 		} else if len(unmapped) > 0 || len(fresh) > 0 {
 			w.violate("parts-differ-after-"+op, "table %s: spec parts without real counterpart %v, real parts without spec counterpart %v (after %s)", tbl, unmapped, fresh, vlib.Canon(ev))
 		}
@@ -1023,7 +1024,7 @@ func (w *world) compare(st vlib.State, ev map[string]any, o *obs, traces []strin
 	}
 }
 
-func (w *world) checkPart(vt *trace.VerifTable, key string, fl []frag, mem bool, byID map[uint64]trace.VerifPart, rid uint64, op string, traces []string) {
+func (w *world) checkPart(vt *trace.VerifTable, key string, fl []frag, mem bool, slo, shi int, byID map[uint64]trace.VerifPart, rid uint64, op string, traces []string) {
 	p, ok := byID[rid]
 	if !ok {
 		w.violate("parts-differ-after-"+op, "part %s (real %d) is not in the snapshot", key, rid)
@@ -1033,18 +1034,13 @@ func (w *world) checkPart(vt *trace.VerifTable, key string, fl []frag, mem bool,
 		w.violate("parts-differ-after-"+op, "part %s (real %d): mem=%v count=%d, the specification mem=%v count=%d", key, rid, p.Mem, p.Count, mem, len(fl))
 		return
 	}
-	if len(fl) == 0 {
-		return
+	// the bounds of the part metadata (a merged part inherits them from its inputs)
+	if p.MinTS != w.ts(slo) || p.MaxTS != w.ts(shi) {
+		w.violate("parts-differ-after-"+op, "part %s (real %d): bounds [%d,%d], the specification [%d,%d]", key, rid, p.MinTS, p.MaxTS, w.ts(slo), w.ts(shi))
 	}
-	lo, hi := fl[0].ts, fl[0].ts
 	has := map[string]bool{}
 	for _, f := range fl {
-		lo, hi = min(lo, f.ts), max(hi, f.ts)
 		has[f.t] = true
-	}
-	// a merged part keeps the bounds of its inputs even when traces were dropped: only containment is required
-	if p.MinTS > w.ts(lo) || p.MaxTS < w.ts(hi) {
-		w.violate("parts-differ-after-"+op, "part %s (real %d): bounds [%d,%d] do not contain the fragments' [%d,%d]", key, rid, p.MinTS, p.MaxTS, w.ts(lo), w.ts(hi))
 	}
 	for _, t := range traces {
 		may, found := vt.PartMightContain(rid, w.tname[t])
@@ -1065,10 +1061,6 @@ func main() {
 	out := flag.String("out", "", "result file")
 	cfgs := flag.String("cfg", "{}", "json config")
 	flag.Parse()
-	if os.Getenv("VERIF_C13_PROBE") != "" {
-		sidxProbe()
-		return
-	}
 	_ = logger.Init(logger.Logging{Env: "prod", Level: "fatal"})
 	res := vlib.NewResult()
 	var cfg config
